@@ -40,7 +40,9 @@ var nameAlphabet = []string{"a", "b", "file", "dir", "with space", ".hidden", "x
 	// names that look like archives (directories and plain files): under recursive limits they are candidates for nested extraction
 	"backup.zip", "logs.gz", "pack.7z", "v1.Z",
 	// names made of white space only
-	" ", "  ", "\u00a0", "\u3000"}
+	" ", "  ", "\u00a0", "\u3000",
+	// valid UTF-8 that is not in composed normal form (combining marks, a singleton)
+	"cafe\u0301", "A\u030angstro\u0308m", "\u212b"}
 
 func genTree(rnd *hx.Rand, maxEntries, maxDepth int, bigFiles, allowDotDot bool) []tNode {
 	var nodes []tNode
@@ -315,6 +317,7 @@ func archiveMain(args []string) {
 		{rel: " ", content: []byte("blank name"), mtime: base0.Add(4 * time.Hour)}, {rel: "\u3000", dir: true, mtime: base0.Add(5 * time.Hour)},
 		{rel: "sub", dir: true, mtime: base0.Add(6 * time.Hour)}, {rel: "sub/pack.Z", dir: true, mtime: base0.Add(7 * time.Hour)},
 		{rel: "sub/pack.Z/empty.jar", content: []byte{}, mtime: base0.Add(8 * time.Hour)}, {rel: "sub/void", dir: true, mtime: base0.Add(9 * time.Hour)},
+		{rel: "de\u0301compose\u0301", dir: true, mtime: base0.Add(10 * time.Hour)}, {rel: "de\u0301compose\u0301/cafe\u0301.txt", content: []byte("decomposed"), mtime: base0.Add(11 * time.Hour)},
 	}
 	for i := -3; i < n; i++ {
 		var nodes []tNode
